@@ -137,6 +137,9 @@ class C19(Prop):
                ('bitcoin/rpc.py', 'Proxy.sendrawtransaction'), ('bitcoin/rpc.py', 'Proxy.lockunspent'),
                ('bitcoin/rpc.py', 'Proxy.getrawmempool'), ('bitcoin/rpc.py', 'Proxy.generate'),
                ('bitcoin/rpc.py', 'Proxy.generatetoaddress'), ('bitcoin/rpc.py', 'Proxy.submitblock'),
+               ('bitcoin/rpc.py', 'Proxy.call'), ('bitcoin/rpc.py', 'Proxy.signrawtransaction'),
+               ('bitcoin/rpc.py', 'Proxy.signrawtransactionwithwallet'), ('bitcoin/rpc.py', 'Proxy.validateaddress'),
+               ('bitcoin/rpc.py', 'Proxy.getblockcount'),
                ('bitcoin/core/__init__.py', 'x'), ('bitcoin/core/__init__.py', 'b2x'),
                ('bitcoin/core/__init__.py', 'lx'), ('bitcoin/core/__init__.py', 'b2lx')]
     trusted_base = ['CPython json (number grammar, parse_float hook), decimal (default context: 28 digits, '
@@ -211,7 +214,7 @@ class C19(Prop):
         return sorted(am)
 
     IN_METHODS = ('getbalance', 'getreceivedbyaddress', 'gettxout', 'listunspent', 'fundrawtransaction',
-                  'getinfo.balance', 'getinfo.paytxfee')
+                  'getinfo.balance', 'getinfo.paytxfee', 'listunspent.addrs')
     OUT_METHODS = ('sendtoaddress', 'sendmany')
     CHAINS = ('gbh-gb', 'gbh-hdr', 'best-gb', 'srt-grt', 'sta-gt', 'sm-grt-bh', 'lu-gto', 'lu-lock', 'gen-gb',
               'gta-gb', 'mempool-grt', 'grtv-gb', 'hdrv-hdr', 'gto-gb')
@@ -384,11 +387,49 @@ class C19(Prop):
             for e in ('absent', 'null'):
                 if mine():
                     yield mk('c19.reply', m, 'obj:%s:v=@null' % e, tag='reply-null-result')
-        for m in ('call', 'raw'):
+        for m in ('call', 'raw', 'getrawmempool.verbose'):
             for e in ('absent', 'null'):
                 for v in ('abc', '@null', '', 'x y'):
                     if mine():
                         yield mk('c19.reply', m, 'obj:%s:v=%s' % (e, v), tag='reply-result')
+
+        # (g) histories (lesson 5: state left behind by an earlier event on the same proxy / in the same process):
+        #     every "earlier event" x every probe, on the same proxy and on the other one; the model's answers are
+        #     the stateless ones and each proxy must count 1, 2, 3, …
+        R30 = '0.' + '9' * 30
+        earlier = ['in|getbalance|0.10000000', 'in|gettxout|' + R30, 'in|listunspent.addrs|0.00000001',
+                   'in|getbalance|' + '1' * 4301, 'in|fundrawtransaction|-0.5', 'in|getinfo.balance|Infinity',
+                   'in|getbalance|-Infinity', 'out|sendtoaddress|12345678', 'out|sendmany|1',
+                   'reply|getblock|obj:dict=int=-5:absent', 'reply|getblockhash|obj:dict=int=-8:v=x',
+                   'reply|call|obj:dict=int=-28:absent', 'reply|call|nonjson=0', 'reply|getbalance|nonutf8=0',
+                   'reply|call|nonobj=4', 'reply|gettxout|none', 'reply|call|obj:dict=unhashable=0:absent',
+                   'reply|call|obj:absent:absent', 'reply|call|obj:null:v=abc', 'reply|gettxout|obj:null:v=@null',
+                   'reply|call|obj:other=0:v=x', 'chain|gbh-gb|' + '00' * 31 + '01', 'chain|lu-gto|' + 'ab' * 32,
+                   'chain|srt-grt|' + 'zz' * 32, 'chain|gen-gb|abc']
+        for m in self.IN_METHODS:
+            earlier += ['in|%s|1e999992' % m, 'in|%s|NaN' % m, 'in|%s|null' % m]
+        probes = ['in|listunspent|20999999.99999999', 'in|getbalance|' + R30, 'in|gettxout|0.10000000' + '0' * 30,
+                  'in|getreceivedbyaddress|1e999992', 'in|getinfo.paytxfee|NaN', 'out|sendtoaddress|2099999997690000',
+                  'reply|call|obj:dict=int=-5:v=x', 'chain|best-gb|' + '0f' * 32, 'reply|call|obj:null:v=abc']
+        for A in earlier:
+            for B in probes:
+                for (pa, pb) in ((0, 0), (0, 1)):
+                    if mine():
+                        yield mk('c19.seq', 'flush;%d|%s;%d|%s;%d|%s' % (pa, A, pb, B, pa, A), tag='seq-pair')
+            if mine():
+                yield mk('c19.seq', 'flush;0|%s;0|%s;1|%s;0|%s' % (A, A, A, A), tag='seq-repeat')
+        pool_steps = earlier + probes
+        for n in range(1500 if big else 150):
+            k = srng.choice([3, 4, 6, 10])
+            steps = ['%d|%s' % (srng.choice([0, 0, 1]), srng.choice(pool_steps)) for _ in range(k)]
+            if mine():
+                yield mk('c19.seq', ';'.join(['flush'] + steps), tag='seq-random')
+
+        # a hash argument that is not bytes is refused (TypeError) before any request is sent
+        for m in ('getblock', 'getblockheader'):
+            for kind in ('str', 'int', 'none'):
+                if mine():
+                    yield mk('c19.nonbytes', m, kind, tag='nonbytes')
 
         # (f) id sequences
         toks = ['ok', 'err', 'bad', 'none', 'miss', 'batch', 'nonutf8', 'nonobj', 'connfail', 'reqfail']
@@ -401,8 +442,8 @@ class C19(Prop):
                 yield mk('c19.ids', ','.join([t] * 50), tag='ids')
 
     # ---- the real code -----------------------------------------------------------------------------------
-    def _amount_in(self, method, text):
-        p, conn = self.proxy()
+    def _amount_in(self, method, text, pc=None):
+        p, conn = pc or self.proxy()
         if method == 'getbalance':
             conn.script(ok_reply(text))
             return p.getbalance()
@@ -413,10 +454,14 @@ class C19(Prop):
             conn.script(ok_reply('{"value": %s, "scriptPubKey": {"hex": "51"}, "bestblock": "%s", "confirmations": 1}'
                                  % (text, '00' * 32)))
             return p.gettxout(self.core.COutPoint(b'\x11' * 32, 0))['txout'].nValue
-        if method == 'listunspent':
+        if method in ('listunspent', 'listunspent.addrs'):
             conn.script(ok_reply('[{"txid": "%s", "vout": 1, "scriptPubKey": "51", "amount": %s, "confirmations": 3}]'
                                  % ('22' * 32, text)))
-            return p.listunspent()[0]['amount']
+            if method == 'listunspent':
+                return p.listunspent()[0]['amount']
+            r = p.listunspent(1, 99, addrs=['addrA', 'addrB'])[0]['amount']
+            assert conn.params() == [1, 99, ['addrA', 'addrB']], conn.params()
+            return r
         if method == 'fundrawtransaction':
             conn.script(ok_reply('{"hex": "%s", "fee": %s, "changepos": -1}' % (self.tx0.serialize().hex(), text)))
             return p.fundrawtransaction(self.tx0)['fee']
@@ -426,9 +471,9 @@ class C19(Prop):
             return p.getinfo()[method.split('.')[1]]
         raise ValueError(method)
 
-    def _emitted(self, method, k):
+    def _emitted(self, method, k, pc=None):
         """the raw JSON token the proxy put into the request body for the amount"""
-        p, conn = self.proxy()
+        p, conn = pc or self.proxy()
         conn.script(ok_reply('"%s"' % ('33' * 32)))
         if method == 'sendtoaddress':
             p.sendtoaddress('addr', k)
@@ -439,8 +484,10 @@ class C19(Prop):
         v = raw[1] if method == 'sendtoaddress' else raw[1]['addr']
         return v
 
-    def _amount_out(self, method, k):
-        v = self._emitted(method, k)
+    def _amount_out(self, method, k, pc=None, sink=None, idx=None):
+        v = self._emitted(method, k, pc)
+        if sink is not None:
+            sink[idx] = v[1] if isinstance(v, tuple) and v[0] == 'num' else 'not-a-number'
         if not (isinstance(v, tuple) and v[0] == 'num'):
             return 'not-a-number:%r' % (v,)
         sat = Fraction(Decimal(v[1])) * COIN   # exact
@@ -448,8 +495,8 @@ class C19(Prop):
             return 'inexact'
         return str(sat.numerator)
 
-    def _chain(self, kind, s):
-        p, conn = self.proxy()
+    def _chain(self, kind, s, pc=None):
+        p, conn = pc or self.proxy()
         C = self.core
         q = json.dumps(s)
         txhex = self.tx0.serialize().hex()
@@ -504,18 +551,34 @@ class C19(Prop):
 
     def _transport(self, op, text):
         p, conn = self.proxy()
+        alt = len(text) % 2 == 0           # the optional-argument branches, chosen by the case itself
         if op == 'c19.tx':
             tx = txfmt.to_tx(txfmt.parse_tx(text))
             conn.script(ok_reply('"%s"' % ('44' * 32)))
-            txid = p.sendrawtransaction(tx)
+            txid = p.sendrawtransaction(tx, allowhighfees=alt)
             sent = conn.params()[0]
+            assert conn.params()[1:] == ([True] if alt else []), conn.params()
             conn.script(ok_reply(json.dumps(sent)))
             back = p.getrawtransaction(txid)
-            return '%s|%s' % (sent, txfmt.show_tx(txfmt.from_tx(back)))
+            shown = txfmt.show_tx(txfmt.from_tx(back))
+            # the other entry points that carry a transaction as hex, both directions
+            for name in ('signrawtransaction', 'signrawtransactionwithwallet', 'fundrawtransaction'):
+                extra = ', "fee": 0.0, "changepos": -1' if name == 'fundrawtransaction' else ', "complete": true'
+                conn.script(ok_reply('{"hex": %s%s}' % (json.dumps(sent.upper() if alt else sent), extra)))
+                r = getattr(p, name)(tx)
+                if conn.params()[0] != sent:
+                    return '%s-sends:%s' % (name, conn.params()[0])
+                if txfmt.show_tx(txfmt.from_tx(r['tx'])) != shown:
+                    return '%s-returns:%s' % (name, txfmt.show_tx(txfmt.from_tx(r['tx'])))
+            return '%s|%s' % (sent, shown)
         if op == 'c19.block':
             blk = txfmt.to_block(txfmt.parse_block(text))
             conn.script(ok_reply('null'))
-            p.submitblock(blk)
+            if alt:
+                p.submitblock(blk, {'workid': 'w'})
+                assert conn.params()[1:] == [{'workid': 'w'}], conn.params()
+            else:
+                p.submitblock(blk)
             sent = conn.params()[0]
             conn.script(ok_reply(json.dumps(sent)))
             back = p.getblock(b'\x05' * 32)
@@ -566,9 +629,9 @@ class C19(Prop):
         members.append('"id": 1')
         return ('{%s}' % ', '.join(members)).encode()
 
-    def _reply(self, method, spec):
+    def _reply(self, method, spec, pc=None):
         raw = method == 'raw'
-        p, conn = self.proxy(raw=raw)
+        p, conn = pc or self.proxy(raw=raw)
         conn.script(self._render_reply(spec))
         C = self.core
         h32 = b'\x07' * 32
@@ -589,6 +652,7 @@ class C19(Prop):
             'sendtoaddress': lambda: p.sendtoaddress('addr', 1),
             'submitblock': lambda: p.submitblock(C.CBlock()),
             'getrawmempool': lambda: p.getrawmempool(),
+            'getrawmempool.verbose': lambda: p.getrawmempool(True),
         }[method]
         try:
             r = call()
@@ -635,8 +699,51 @@ class C19(Prop):
                 out.append(str(j['id']))
         return ','.join(out)
 
+    # ---- histories: several calls in one case, on one or two proxies that live through the whole case ------------
+    @staticmethod
+    def _flush():
+        """neutral first step: whatever earlier cases of this process left in the thread's decimal context is
+        replaced by a fresh default context, so that a history replays identically from a fresh process"""
+        import decimal
+        decimal.setcontext(decimal.Context())
+
+    def _seq(self, steps, sink=None):
+        outs = []
+        pcs = None
+        for idx, st in enumerate(steps.split(';')):
+            f = st.split('|')
+            if f[0] == 'flush':
+                self._flush()
+                pcs = [self.proxy(), self.proxy()]
+                outs.append('-')
+                continue
+            pc = pcs[int(f[0])]
+            kind = f[1]
+            if kind == 'in':
+                outs.append(guarded(lambda: str(self._amount_in(f[2], f[3], pc))))
+            elif kind == 'out':
+                outs.append(guarded(lambda: self._amount_out(f[2], int(f[3]), pc, sink, idx)))
+            elif kind == 'reply':
+                outs.append(guarded(lambda: self._reply(f[2], f[3], pc)))
+            elif kind == 'chain':
+                outs.append(guarded(lambda: self._chain(f[2], f[3], pc)))
+            else:
+                raise ValueError(st)
+        ids = []
+        for (_, conn) in pcs:
+            ids.append(','.join(str(json.loads(b)['id']) for (_, _, b, _) in conn.requests
+                                if isinstance(json.loads(b), dict)))
+        return ';'.join(outs) + '#' + '#'.join(ids)
+
     def impl(self, c):
         op, a = c['op'], c['args']
+        if op == 'c19.seq':
+            sink = {}
+            try:
+                return self._seq(a[0], sink)
+            finally:
+                self._emitted_cache[c.key()] = sink
+                self._flush()
         if op == 'c19.amountIn':
             return guarded(lambda: str(self._amount_in(a[0], a[1])))
         if op == 'c19.amountOut':
@@ -646,6 +753,10 @@ class C19(Prop):
         if op == 'c19.unhex':
             def f():
                 b = self.R.unhexlify_str(a[0])
+                p, conn = self.proxy()
+                conn.script(ok_reply('{"isvalid": false, "pubkey": %s}' % json.dumps(a[0])))
+                if p.validateaddress('addr')['pubkey'] != b:
+                    return 'validateaddress-differs'
                 return b.hex() if self.core.x(a[0]) == b else 'x-differs-from-unhexlify_str'
             return guarded(f)
         if op == 'c19.hex':
@@ -664,9 +775,37 @@ class C19(Prop):
             return guarded(lambda: self._reply(a[0], a[1]))
         if op == 'c19.ids':
             return guarded(lambda: self._ids(a[0].split(',')))
+        if op == 'c19.nonbytes':
+            def f():
+                p, conn = self.proxy()
+                arg = {'str': 'ab' * 32, 'int': 5, 'none': None}[a[1]]
+                try:
+                    getattr(p, a[0])(arg)
+                finally:
+                    assert conn.requests == [], 'a request was sent for a hash that is not bytes'
+                return 'no-exception'
+            return guarded(f)
         raise ValueError(op)
 
+    _emitted_cache = {}
+
     def model_line(self, c):
+        if c['op'] == 'c19.seq':
+            # the model reads the text each `out` step emitted (cached by impl(); recomputed on a replay)
+            sink = self._emitted_cache.pop(c.key(), None)
+            if sink is None:
+                sink = {}
+                try:
+                    self._seq(c['args'][0], sink)
+                finally:
+                    self._flush()
+            steps = []
+            for idx, st in enumerate(c['args'][0].split(';')):
+                f = st.split('|')
+                if len(f) > 1 and f[1] == 'out':
+                    st = st + '|' + sink.get(idx, 'not-a-number')
+                steps.append(st)
+            return 'c19.seq\t' + ';'.join(steps)
         if c['op'] == 'c19.amountOut':
             try:
                 v = self._emitted(c['args'][0], int(c['args'][1]))
@@ -683,6 +822,10 @@ class C19(Prop):
         return None
 
     def agree(self, c, io, mo):
+        if c['op'] == 'c19.seq':
+            # the model's answers are the stateless ones: every step must answer as it would on a fresh proxy in a
+            # fresh process, and each proxy must count its own requests 1, 2, 3, …
+            return io == mo
         if c['op'] == 'c19.amountOut':
             # Python's exact reading of the emitted text, the model's (Model.Rpc.satoshisDenoted), and the amount
             return io == mo == c['args'][1]
@@ -740,6 +883,9 @@ class C19(Prop):
         if c['op'] in ('c19.lx', 'c19.unhex', 'c19.b2lx', 'c19.chain'):
             return a[-1].strip('0') != ''
         return True
+
+    # c19.seq histories are not shrunk: whether a shortened history still fails would be judged in this process,
+    # whose state earlier cases may have touched; the unshortened history (<= 11 steps) replays from a fresh process
 
     def shrink_candidates(self, c):
         if c['op'] == 'c19.ids':
